@@ -71,4 +71,116 @@ pub(crate) mod verif_string {
         }
     }
 
+
+    // =====================================================================================
+    // C16: cat - concatenation of the operands' string forms, in order; strings unchanged.
+    // to_string by contract: the string form of operand i is the planned label L_i (one ASCII byte)
+    // for non-strings; string operands must pass through WITHOUT conversion.
+    // =====================================================================================
+    pub(crate) static mut TS_PTR: [*const Value; 4] = [std::ptr::null(); 4];
+    pub(crate) static mut TS_LABEL: [u8; 4] = [0; 4];
+    pub(crate) static mut TS_CALLS: [u8; 4] = [0; 4];
+    pub(crate) fn to_string_stub(value: &Value) -> String {
+        let p = value as *const Value;
+        let mut i = 0;
+        while i < 4 {
+            if unsafe { TS_PTR[i] } == p {
+                unsafe { TS_CALLS[i] += 1 };
+                let mut s = String::from("a");
+                unsafe { s.as_bytes_mut()[0] = TS_LABEL[i] };
+                return s;
+            }
+            i += 1;
+        }
+        assert!(false, "to_string called on a value that is not an operand");
+        String::new()
+    }
+    /// kinds digit (base 3) per operand: 0 = string (1 symbolic ASCII byte), 1 = number, 2 = array
+    pub(crate) fn body_cat(n: usize, kinds: u32) {
+        let mut vals: Vec<MD<Value>> = Vec::with_capacity(4);
+        let mut want = [0u8; 4];
+        let mut k = kinds;
+        let mut i = 0;
+        while i < n {
+            let d = k % 3;
+            k /= 3;
+            let b: u8 = kani::any();
+            kani::assume(b < 128);
+            want[i] = b;
+            let v = match d {
+                0 => {
+                    let mut s = String::from("a");
+                    unsafe { s.as_bytes_mut()[0] = b };
+                    Value::String(s)
+                }
+                1 => Value::Number(Number::from(7)),
+                _ => Value::Array(Vec::new()),
+            };
+            vals.push(MD::new(v));
+            i += 1;
+        }
+        let vals = MD::new(vals);
+        let mut items: Vec<&Value> = Vec::with_capacity(4);
+        let mut i = 0;
+        let mut k = kinds;
+        while i < n {
+            items.push(&*vals[i]);
+            if k % 3 != 0 {
+                unsafe {
+                    TS_PTR[i] = &*vals[i] as *const Value;
+                    TS_LABEL[i] = want[i];
+                }
+            }
+            k /= 3;
+            i += 1;
+        }
+        let items = MD::new(items);
+        let r = MD::new(cat(&items));
+        kani::cover!(true, "returned");
+        match &*r {
+            Ok(Value::String(out)) => {
+                assert!(out.len() == n, "cat: result must be the concatenation of the operands' string forms (one piece per operand)");
+                let mut j = 0;
+                while j < n {
+                    assert!(out.as_bytes()[j] == want[j], "cat: pieces in operand order, strings unchanged, other values by their string form");
+                    j += 1;
+                }
+            }
+            _ => assert!(false, "cat always returns a string"),
+        }
+    }
+    macro_rules! cat_harness {
+        ($name:ident, $n:expr, $kinds:expr) => {
+            #[cfg_attr(kani, kani::proof)]
+            #[cfg_attr(kani, kani::unwind(8))]
+            #[cfg_attr(kani, kani::stub(crate::js_op::to_string, to_string_stub))]
+            #[cfg_attr(kani, kani::stub(std::fmt::format, crate::verif_support::fmt_stub))]
+            pub(crate) fn $name() {
+                body_cat($n, $kinds);
+            }
+        };
+    }
+//@GENERATED-CAT
+    //@ob name=C16.cat.none harness=k_c16_cat_none props=C16,C01 tier=quick strength=bounded bound="operand kinds (); string contents / string forms: one symbolic ASCII byte each" fns=op::string::cat stubs=2 timeout=200 cutdrop=1
+    //@ desc="cat: the concatenation, in operand order, of string operands unchanged and of to_string(v) for every other operand (to_string by contract); so concatenating in pieces equals concatenating at once"
+    cat_harness!(k_c16_cat_none, 0, 0);
+    //@ob name=C16.cat.str harness=k_c16_cat_str props=C16,C01 tier=quick strength=bounded bound="operand kinds (str); string contents / string forms: one symbolic ASCII byte each" fns=op::string::cat stubs=2 timeout=200 cutdrop=1
+    //@ desc="cat: the concatenation, in operand order, of string operands unchanged and of to_string(v) for every other operand (to_string by contract); so concatenating in pieces equals concatenating at once"
+    cat_harness!(k_c16_cat_str, 1, 0);
+    //@ob name=C16.cat.num harness=k_c16_cat_num props=C16,C01 tier=quick strength=bounded bound="operand kinds (num); string contents / string forms: one symbolic ASCII byte each" fns=op::string::cat stubs=2 timeout=200 cutdrop=1
+    //@ desc="cat: the concatenation, in operand order, of string operands unchanged and of to_string(v) for every other operand (to_string by contract); so concatenating in pieces equals concatenating at once"
+    cat_harness!(k_c16_cat_num, 1, 1);
+    //@ob name=C16.cat.str_num harness=k_c16_cat_str_num props=C16,C01 tier=quick strength=bounded bound="operand kinds (str, num); string contents / string forms: one symbolic ASCII byte each" fns=op::string::cat stubs=2 timeout=200 cutdrop=1
+    //@ desc="cat: the concatenation, in operand order, of string operands unchanged and of to_string(v) for every other operand (to_string by contract); so concatenating in pieces equals concatenating at once"
+    cat_harness!(k_c16_cat_str_num, 2, 3);
+    //@ob name=C16.cat.arr_str harness=k_c16_cat_arr_str props=C16,C01 tier=quick strength=bounded bound="operand kinds (arr, str); string contents / string forms: one symbolic ASCII byte each" fns=op::string::cat stubs=2 timeout=200 cutdrop=1
+    //@ desc="cat: the concatenation, in operand order, of string operands unchanged and of to_string(v) for every other operand (to_string by contract); so concatenating in pieces equals concatenating at once"
+    cat_harness!(k_c16_cat_arr_str, 2, 2);
+    //@ob name=C16.cat.str_str_str harness=k_c16_cat_str_str_str props=C16,C01 tier=thorough strength=bounded bound="operand kinds (str, str, str); string contents / string forms: one symbolic ASCII byte each" fns=op::string::cat stubs=2 timeout=200 cutdrop=1
+    //@ desc="cat: the concatenation, in operand order, of string operands unchanged and of to_string(v) for every other operand (to_string by contract); so concatenating in pieces equals concatenating at once"
+    cat_harness!(k_c16_cat_str_str_str, 3, 0);
+    //@ob name=C16.cat.num_str_arr harness=k_c16_cat_num_str_arr props=C16,C01 tier=thorough strength=bounded bound="operand kinds (num, str, arr); string contents / string forms: one symbolic ASCII byte each" fns=op::string::cat stubs=2 timeout=200 cutdrop=1
+    //@ desc="cat: the concatenation, in operand order, of string operands unchanged and of to_string(v) for every other operand (to_string by contract); so concatenating in pieces equals concatenating at once"
+    cat_harness!(k_c16_cat_num_str_arr, 3, 19);
+//@END-GENERATED-CAT
 }
